@@ -50,7 +50,7 @@ class SymCtx:
         v = self.eng.param(name, min(values), max(values))
         if name not in self.pinfo:
             self.pinfo[name] = ('choice', tuple(values))
-            self.eng.assume(z3.Or([v.z == core._q(Fraction(c)) for c in values]))
+            self.eng.assume(Or(*[v == Fraction(c) for c in values]))
         return v
 
     def lib(self, x):
@@ -68,7 +68,7 @@ class SymCtx:
             if not cond:
                 raise Infeasible()
             return
-        self.eng.assume(cond.z if hasattr(cond, 'z') else cond)
+        self.eng.assume(cond)
 
     def band(self, q, scale=1):
         """admissibility: the incidence quantity q is exactly 0 or at least MARGIN*scale away"""
@@ -77,7 +77,7 @@ class SymCtx:
                 raise Infeasible()
             return
         m = MARGIN * Fraction(scale)
-        self.eng.assume(z3.Or(q.z == 0, q.z >= core._q(m), q.z <= core._q(-m)))
+        self.eng.assume(Or(q == 0, q >= m, q <= -m))
 
     def outcome(self, label):
         self.outcomes.append(label)
@@ -329,8 +329,7 @@ def explore(fam, tier='quick', budget_s=60, timeout_ms=3000, slow_ms=20000, max_
         # witness of this path, replayed on the real library
         if status == 'ok' and validate:
             try:
-                m = eng.get_model()
-                vals = ctx.values(m)
+                vals = eng.witness()
                 sym_out = list(ctx.outcomes)
                 core.set_engine(None)
                 c = run_concrete(fam, vals)
